@@ -392,12 +392,14 @@ func runC16(c *eng.Ctx) {
 		sig := f.Obj.Type().(*types.Signature)
 		common := sig.Params().At(sig.Params().Len() - 1)
 		calls := callsIn(info, f.Decl.Body, isObj(mergeLabels))
-		ok := len(calls) == 1
+		// every merge in the function (one, or one per kind of operation) has the common labels last
+		ok := len(calls) >= 1
 		var pos token.Pos = f.Decl.Pos()
-		if ok {
-			call := calls[0]
-			pos = call.Pos()
-			ok = len(call.Args) == 2 && eng.IsField(info, call.Args[0], opLabels) && eng.SelObj(info, call.Args[1]) == common
+		for _, call := range calls {
+			if !(len(call.Args) == 2 && eng.IsField(info, call.Args[0], opLabels) && eng.SelObj(info, call.Args[1]) == common) {
+				ok = false
+				pos = call.Pos()
+			}
 		}
 		r6.Check(ok, f.Key+" merge-order", pos, "MergeLabels(op.Labels, common)", "labels are not merged as MergeLabels(op.Labels, commonLabels): the hook label can be overridden by the hook or is missing")
 		// every mutating call uses the merged labels
@@ -409,11 +411,16 @@ func runC16(c *eng.Ctx) {
 				}
 				return true
 			})
-			all := merged != nil
+			isMerge := map[ast.Expr]bool{}
+			for _, mcall := range calls {
+				isMerge[mcall] = true
+			}
+			all := true
 			for _, mc := range callsIn(info, f.Decl.Body, func(o types.Object, _ *ast.CallExpr) bool { return isMetricMutator(o) }) {
 				uses := false
 				for _, a := range mc.Args {
-					if eng.SelObj(info, a) == merged {
+					// the merged set through a local, or the merge written in place as the argument
+					if (merged != nil && eng.SelObj(info, a) == merged) || isMerge[ast.Unparen(a)] {
 						uses = true
 					}
 				}
